@@ -64,6 +64,9 @@ func (e *Enc) callCommon(c *ssa.CallCommon, pos token.Pos, hint string, rt types
 		ct, key, typedIdx, typedInner = w.cs.Funcs[tk], tk, idx, inner
 		args[idx] = e.unboxed(args[idx], inner)
 	}
+	if ct != nil && !e.callerAllowed(ct) {
+		panic(unsupported("call to " + key + ": its assumed contract is reserved for " + ct.Options["callers"]))
+	}
 	if ct == nil {
 		if len(callee.Blocks) > 0 && callee.Pkg != nil && strings.HasPrefix(callee.Pkg.Pkg.Path(), rootPath) {
 			return e.inlineCall(callee, args, pos)
@@ -79,19 +82,22 @@ func (e *Enc) callCommon(c *ssa.CallCommon, pos token.Pos, hint string, rt types
 	vars := bindParams(callee.Signature, args)
 	if callee == e.fn || (callee.Origin() != nil && callee.Origin() == e.fn.Origin()) {
 		// direct recursion: the variant must be smaller (and bounded below) at the recursive call
-		if e.c.Decreases == nil {
+		if e.c.Decreases == nil && e.c.Options["assume-recursion-terminates"] != "" {
+			w.assumedUsed["<recursion of "+e.key+" terminates: "+e.c.Options["assume-recursion-terminates"]+">"] = true
+		} else if e.c.Decreases == nil {
 			panic(unsupported("recursive call without a function-level decreases clause"))
-		}
-		entryV := e.env(e.entry, e.entry, nil).tr(e.c.Decreases.Expr, mathIntType)
-		callEnv := &Env{w: w, pkg: e.pkgOf(ct), vars: vars, pre: e.cur, cur: e.cur, W0: e.cur.W, decl: e.declare, useMem: e.useMem, ghost: e.ghost, noteWF: e.noteWF}
-		callV := callEnv.tr(e.c.Decreases.Expr, mathIntType)
-		var g string
-		if entryV.Sort == "Int" {
-			g = and("(<= 0 "+entryV.S+")", "(< "+callV.S+" "+entryV.S+")")
 		} else {
-			g = and("(bvsle "+w.reg.zero(entryV.T)+" "+entryV.S+")", "(bvslt "+callV.S+" "+entryV.S+")")
+			entryV := e.env(e.entry, e.entry, nil).tr(e.c.Decreases.Expr, mathIntType)
+			callEnv := &Env{w: w, pkg: e.pkgOf(ct), vars: vars, pre: e.cur, cur: e.cur, W0: e.cur.W, decl: e.declare, useMem: e.useMem, ghost: e.ghost, noteWF: e.noteWF}
+			callV := callEnv.tr(e.c.Decreases.Expr, mathIntType)
+			var g string
+			if entryV.Sort == "Int" {
+				g = and("(<= 0 "+entryV.S+")", "(< "+callV.S+" "+entryV.S+")")
+			} else {
+				g = and("(bvsle "+w.reg.zero(entryV.T)+" "+entryV.S+")", "(bvslt "+callV.S+" "+entryV.S+")")
+			}
+			e.oblige("decreases", fmt.Sprintf("recursion@%d", e.callOrdinal("self", pos)), g, "variant of the recursion: "+e.c.Decreases.Text, e.c.Decreases.Props, pos)
 		}
-		e.oblige("decreases", fmt.Sprintf("recursion@%d", e.callOrdinal("self", pos)), g, "variant of the recursion: "+e.c.Decreases.Text, e.c.Decreases.Props, pos)
 	}
 	if m := ct.Options["callback"]; m != "" {
 		// same protocol as for invokes: shared result terms, then the implementors' contracts
@@ -191,6 +197,18 @@ func (e *Enc) applyContract(ct *Contract, guard string, vars map[string]Term, rt
 		panic(unsupported("contract of " + ct.Key + " has no modifies clause; cannot be used at a call site"))
 	}
 	calleePkg := e.pkgOf(ct)
+	if al := w.paramAliases(ct, calleePkg); len(al) > 0 {
+		nv := map[string]Term{}
+		for k, v := range vars {
+			nv[k] = v
+		}
+		for old, cur := range al {
+			if t, ok := vars[cur]; ok {
+				nv[old] = t
+			}
+		}
+		vars = nv
+	}
 	if wNew == "" {
 		if ct.Options["allocs"] != "none" {
 			wNew = e.fresh("W")
@@ -967,6 +985,9 @@ func (e *Enc) invoke(c *ssa.CallCommon, pos token.Pos, hint string) []Term {
 		ict, ikey, typedIdx, typedInner = w.cs.Funcs[tk], tk, idx, inner
 		args[idx] = e.unboxed(args[idx], inner)
 	}
+	if ict != nil && !e.callerAllowed(ict) {
+		panic(unsupported("invoke of " + ikey + ": its assumed contract is reserved for " + ict.Options["callers"]))
+	}
 	cases := e.implCases(c)
 	if ict == nil && len(cases) == 0 {
 		panic(unsupported("invoke of " + ikey + ": no interface-level contract and no implementor under contract"))
@@ -1044,4 +1065,19 @@ func (e *Enc) invoke(c *ssa.CallCommon, pos token.Pos, hint string) []Term {
 	}
 	e.pendingCopyOut = nil
 	return res
+}
+
+// callerAllowed: an assumed contract with `option callers=a,b` may only be used inside the listed
+// functions (contracts that are sound only under an assumption about one particular caller).
+func (e *Enc) callerAllowed(ct *Contract) bool {
+	cs := ct.Options["callers"]
+	if cs == "" {
+		return true
+	}
+	for _, k := range strings.Split(cs, ",") {
+		if strings.TrimSpace(k) == e.key {
+			return true
+		}
+	}
+	return false
 }
